@@ -53,6 +53,7 @@ class Monitor:
         self.tainted = False   # a live holder was broken with matching info: statement's exemption
         self.breaking = {}     # actor -> (examined nonce, disk nonce at call time)
         self.in_unlock = {}    # actor -> nonce   (between unlock-call and unlock-return: still a live holder on disk)
+        self.unlock_hit_by_mismatch = set()  # actors whose lock a mismatched break renamed away while they were inside unlock()
         self.events = []
         self.sched_actors = set()
         self.explicit_break = set()
@@ -64,6 +65,26 @@ class Monitor:
 
     # --- on-disk observation at the rename that takes `held` away
     def after_op(self, e):
+        if e.op == "rename" and e.path.endswith("lock/held") and e.extra and "/releasing." in "/" + e.extra and getattr(e, "error", None) is None:
+            # the rename with which unlock() takes its own lock away: it must be the unlocker's own lock
+            sub = e.extra.rsplit("/", 1)[-1]
+            n = _disk_nonce(self.root, sub)
+            own = self.in_unlock.get(e.actor)
+            self.ctx.count("unlock_renames")
+            if own is not None and n is not None and n != "?corrupt" and n != own:
+                victim = [a for a, nn in self.holders.items() if nn == n]
+                if e.actor in self.unlock_hit_by_mismatch:
+                    # consequence of the known force_break TOCTOU: that break took the unlocker's lock away between the
+                    # unlocker's confirm() and its rename, so the rename hit the next holder's lock
+                    self.ctx.count("unlock_removed_foreign_lock_after_mismatched_break")
+                    for v in victim:
+                        self.broken[v] = "mismatch"
+                elif self.tainted:
+                    self.ctx.count("exempt_unlock_rename_after_live_break")
+                else:
+                    self.ctx.fail("unlock:removed-foreign-lock", "unlock of %s (nonce %s) renamed away the lock with nonce %s" % (e.actor, own, n),
+                                  {"events": self.events[-40:]})
+            return
         if e.op == "rename" and e.path.endswith("lock/held") and e.extra and "/broken." in "/" + e.extra:
             sub = e.extra.rsplit("/", 1)[-1]
             n = _disk_nonce(self.root, sub)
@@ -90,6 +111,9 @@ class Monitor:
                                   {"events": self.events[-30:]})
                 for v in victim:
                     self.broken[v] = "mismatch"
+                for a, nn in self.in_unlock.items():
+                    if nn == n:
+                        self.unlock_hit_by_mismatch.add(a)
 
     def acquired(self, actor, nonce):
         self.ctx.count("acquire_ok")
@@ -115,6 +139,7 @@ class Monitor:
 
     def released(self, actor, how):
         self.in_unlock.pop(actor, None)
+        self.unlock_hit_by_mismatch.discard(actor)
         self.ev("unlock-return", actor, how)
 
 
